@@ -329,6 +329,9 @@ impl Property for C14 {
     fn check(s: &Scenario) -> CheckResult {
         check(s)
     }
+    fn valid(s: &Scenario) -> bool {
+        s.s1.iter().chain(s.s2.iter()).all(|x| x.is_finite()) && s.v.is_finite() && s.w.is_finite() && s.dt.unsigned_abs() <= 100_000_000_000_000 && s.k1 < 3 && s.k2 < 3 && dom::grid(s.unit)
+    }
     fn extra_coverage() -> std::collections::BTreeMap<String, serde_json::Value> {
         let mut m = std::collections::BTreeMap::new();
         m.insert("max_observed_error_over_bound".into(), serde_json::json!(HEADROOM.get()));
